@@ -401,7 +401,7 @@ def c05_batches(seed, tier):
             "ABS_X": axis("cc", cc=cc, ccNeg=ccn, off=ao, offNeg=ao, bidi=True, dzn=1, dzd=20),
             "ABS_Y": axis("pitch_bend", off=ao, flip=True, dzn=1, dzd=10),
             "ABS_Z": axis("cc", cc=cc, off=ao, centre=True, dzn=1, dzd=2),
-            "ABS_RX": axis("key", note=127, noteNeg=ccn if 0 <= ccn <= 300 else 0, off=ao, offNeg=ao, bidi=True, dzn=0, dzd=1),
+            "ABS_RX": axis("key", note=127, noteNeg=ccn if 0 <= ccn <= 127 else 5, off=ao, offNeg=ao, bidi=True, dzn=0, dzd=1),
             "ABS_RZ": axis("cc", cc=cc, off=ao, flip=True, dzn=99, dzd=100),
         }
         info = {"ABS_X": {"min": -128, "max": 127}, "ABS_Y": {"min": -32768, "max": 32767}, "ABS_Z": {"min": 0, "max": 255},
